@@ -342,6 +342,26 @@ def cmp2b(p, res):
                                         seen.add(("c", r[1]))
                                         st.append(t2["a"][0])
                     key = (f.uid, bi, pi)
+                    if detached:
+                        # compensated: the seeds are copied out of the view and written back through `seed_mut` of the caller's own object (not through a cloning view)
+                        fplain = Flow(f, transparent=tuple(n for n in ACCESS if n not in ("at_mut", "at", "key_mut", "index_mut", "index", "get_mut")))
+                        for b3, t3 in f.calls():
+                            if (f.callee_def(t3) or {}).get("n") in ("clone_from", "copy_from_slice", "clone_from_slice", "extend_from_slice") and t3["a"]:
+                                for r3 in fplain.op_roots(t3["a"][0]):
+                                    if r3[0] != "call":
+                                        continue
+                                    t4 = f.blocks[r3[1]]["t"]
+                                    if (f.callee_def(t4) or {}).get("n") != "seed_mut" or not t4["a"]:
+                                        continue
+                                    via_view = False
+                                    owner = False
+                                    for r4 in fplain.op_roots(t4["a"][0]):
+                                        if r4[0] == "param":
+                                            owner = True
+                                        if r4[0] == "call" and (f.callee_def(f.blocks[r4[1]]["t"]) or {}).get("n") == "to_mut":
+                                            via_view = True
+                                    if owner and not via_view:
+                                        detached = None
                     if detached and key not in reported:
                         reported.add(key)
                         res.bad("CMP-2", f.pretty, "seed-stored-in-copy:%s" % (f.callee_def(t) or {}).get("n"),
